@@ -1404,9 +1404,15 @@ Stylesheet::processExtensionNamespace(
                                                     uri,
                                                     theConstructionContext.getMemoryManager()));
 
-    m_extensionNamespaces.insert(uri, theGuard.get());
+    // The same namespace URI can be listed more than once, through
+    // different prefixes.  insert() does nothing if the URI is already
+    // there, so only give up ownership if the map took the handler.
+    if (m_extensionNamespaces.find(uri) == m_extensionNamespaces.end())
+    {
+        m_extensionNamespaces.insert(uri, theGuard.get());
 
-    theGuard.release();
+        theGuard.release();
+    }
 
     m_namespacesHandler.addExtensionNamespaceURI(theConstructionContext, uri);
 }
